@@ -98,9 +98,29 @@ pub fn cli_lines(rng: &mut Rng, idx: u64, maxvars: usize, bindir: &str, scratch:
             if rng.chance(1, 5) {
                 wnames.push("w_extra".to_string());
             }
-            let ws: Vec<(String, u64, u64)> = wnames.iter().map(|nm| (nm.clone(), rng.below(7), rng.below(7))).collect();
+            let mut ws: Vec<(String, u64, u64)> = wnames.iter().map(|nm| (nm.clone(), rng.below(7), rng.below(7))).collect();
+            // weight files as users write them: one line in three has probabilities only
+            // (low + high = 1), one in four leaves a variable of the formula out of the file (the
+            // tool then gives it the weights (0, 0)).  Derived from values already drawn.
+            let sum: u64 = ws.iter().map(|(_, l, h)| l + h).sum();
+            if sum % 3 == 0 {
+                for w in ws.iter_mut() {
+                    w.1 %= 3;
+                    w.2 = 2 - w.1;
+                }
+            }
+            if sum % 4 == 1 && k >= 2 {
+                ws.remove((sum as usize / 4) % k);
+            }
+            // a configured order names exactly the variables the tool knows: those of the formula
+            // and those of the weights file
+            let known: Vec<String> = wnames
+                .iter()
+                .filter(|nm| text.contains(&format!("(Var {})", nm)) || ws.iter().any(|(w, _, _)| w == *nm))
+                .cloned()
+                .collect();
             let order: Option<Vec<String>> = if rng.coin() {
-                let mut o = wnames.clone();
+                let mut o = known.clone();
                 rng.shuffle(&mut o);
                 Some(o)
             } else {
